@@ -69,6 +69,11 @@ func c12(r *ev.Run) {
 				map[string]interface{}{"key_hex": fmt.Sprintf("%x", key), "got": got, "want": want})
 			return false
 		}
+		if rs := sredis.VerifRouteSlot(key); rs != want {
+			r.Violation("C12:route-mismatch:"+class, fmt.Sprintf("key %q is routed (chooseHost) by slot %d, specification says %d", key, rs, want),
+				map[string]interface{}{"key_hex": fmt.Sprintf("%x", key), "got": rs, "want": want})
+			return false
+		}
 		if tag := sredis.VerifHashTag(key); !bytes.Equal(tag, refHashTag(key)) {
 			r.Violation("C12:hashtag-mismatch:"+class, fmt.Sprintf("key %q hash tag %q, specification says %q", key, tag, refHashTag(key)),
 				map[string]interface{}{"key_hex": fmt.Sprintf("%x", key)})
